@@ -66,6 +66,14 @@ class Verdict:
         self._known = {f["key"]: f for f in load_findings().get("findings", []) if f.get("property") == prop}
         self._printed_known = set()
         self._printed_viol = 0
+        if not args.replay:
+            # witnesses of earlier runs of this check are stale
+            import glob
+            for stale in glob.glob(os.path.join(VERIF_OUT, "replays", f"{prop}-*.json")):
+                try:
+                    os.unlink(stale)
+                except OSError:
+                    pass
 
     # -- recording -------------------------------------------------------------------------
     def count(self, name: str, n: int = 1):
